@@ -310,9 +310,14 @@ func sameTokens(a, s []string) (bool, string) {
 	return true, ""
 }
 
-func renderTokens(stmts []syntax.Stmt, r *rand.Rand, opt gen.Options) (string, []token) {
+// tokenRich is a layout in which every physical line is one logical line (no continuations, no line
+// breaks inside brackets, no comments) but the optional tokens occur: semicolons, trailing commas,
+// one-line suites, redundant parentheses, the second colon of a slice.
+var tokenRich = gen.Layout{TrailingComma: 0.35, Semicolons: 0.4, OneLineSuites: 0.4, RedundantPar: 0.08}
+
+func renderTokens(stmts []syntax.Stmt, r *rand.Rand, opt gen.Options, lay gen.Layout) (string, []token) {
 	var toks []token
-	opt.Layout = gen.Plain
+	opt.Layout = lay
 	opt.Filename = "n.star"
 	opt.OnToken = func(s string, p syntax.Position) { toks = append(toks, token{s, p.Line, p.Col}) }
 	text := gen.Render(stmts, r, opt)
@@ -365,7 +370,7 @@ func nearMissCase(c *driver.Ctx) {
 	o := treeOpts{budget: 15 + r.Intn(50), exprDepth: 2 + r.Intn(3), stmtDepth: r.Intn(3), multiline: false, nonASCII: r.Intn(3) == 0}
 	g := newTreeGen(r, o)
 	stmts := g.program()
-	baseText, baseToks := renderTokens(stmts, r, gen.Options{NoParen: copyNoParen(g.noParen), Elif: g.elif})
+	baseText, baseToks := renderTokens(stmts, r, gen.Options{NoParen: copyNoParen(g.noParen), Elif: g.elif}, tokenRich)
 	c.Note("near-miss base %q", driver.Truncate(baseText, 200))
 	// lines of tokens
 	var lines [][]string
@@ -468,12 +473,17 @@ func judgeNearMiss(c *driver.Ctx, r *rand.Rand, lines [][]string, indent []int32
 		c.DistinctH(driver.Hash64("nm:" + text))
 		return true
 	}
+	// The resolver runs first: rendering the tree again overwrites its position fields.
+	var rerr error
+	rpanic := sl.Safe(func() {
+		rerr = resolve.File(file, func(string) bool { return true }, func(string) bool { return false })
+	})
 	// accepted: same token sequence?
 	var rtoks []token
 	var rtext string
 	if p := sl.Safe(func() {
 		opt := gen.FromParsed(file.Stmts)
-		rtext, rtoks = renderTokens(file.Stmts, r, opt)
+		rtext, rtoks = renderTokens(file.Stmts, r, opt, gen.Plain)
 	}); p != nil {
 		c.Violation("C14 near-miss accepted-tree-not-renderable", fmt.Sprintf("the tree returned for an accepted near-miss cannot be rendered: %v", p), detail(map[string]any{"panic": p.String()}))
 		return false
@@ -493,11 +503,8 @@ func judgeNearMiss(c *driver.Ctx, r *rand.Rand, lines [][]string, indent []int32
 		return false
 	}
 	// accepted near-misses must pass the resolver or be rejected by it with a position inside the text
-	var rerr error
-	if p := sl.Safe(func() {
-		rerr = resolve.File(file, func(string) bool { return true }, func(string) bool { return false })
-	}); p != nil {
-		c.Violation("C14 near-miss resolver-panic", fmt.Sprintf("the resolver panicked on an accepted near-miss: %v", p), detail(map[string]any{"panic": p.String()}))
+	if rpanic != nil {
+		c.Violation("C14 near-miss resolver-panic", fmt.Sprintf("the resolver panicked on an accepted near-miss: %v", rpanic), detail(map[string]any{"panic": rpanic.String()}))
 		return false
 	}
 	if rerr != nil {
